@@ -28,7 +28,8 @@ RULE = (
     'an offset) x 1-3 tracers (ids 1-999, per-tracer layer counts 1-4 or 47,'
     ' scale factors from {1, 1e9, 1e6, 1e-3, 2.5, ...} rendered E10.3, units),'
     ' grid 1-5 x 1-4 cells, nested-grid offsets I0/J0/L0, grid header '
-    'variants, tracerinfo/diaginfo tables with decoy rows, with/without '
+    'variants, tau0/tau1 float64 hours (whole, halves, k/3 k/6 k/60 h '
+    'series and arbitrary doubles at 1e5..3e5 h), tracerinfo/diaginfo tables with decoy rows, with/without '
     'comment headers; REAL*4 payload either arbitrary bit patterns (NaN, inf,'
     ' denormal, -0.0) or exactly representable k*2^e values.  Files are '
     'written by the independent struct-only codec vf/ref/bpch_ref.py (anchored'
@@ -36,7 +37,8 @@ RULE = (
     'enumeration of every (time blocks, categories, tracers) count in 1..3 '
     'with layer patterns.  Oracle: (a) bpch1(noscale=True): variable names = '
     'category_tracername in file order, shapes (nt,nl,nj,ni), values '
-    'bit-identical to the encoded REAL*4, tau0/tau1 exact, tracerid, '
+    'bit-identical to the encoded REAL*4, tau0/tau1 bit-equal float64 (for '
+    'bpch1 and bpch2, scaled and unscaled; bpch2 time = tau0), tracerid, '
     'category, base unit, grid header attributes, STARTI/J/K = offsets-1; '
     'writer output byte-identical to the input file.  (b) bpch1 scaled: '
     'values = raw x table scale (float32 product, rtol 1e-6, NaN==NaN), '
@@ -162,8 +164,19 @@ def cases(draw, tier='quick'):
                  draw(st.sampled_from([1, 1, 1, 2, 5]))]
     else:
         start = [1, 1, 1]
-    tau = draw(st.sampled_from([0.0, 175320.0, 140256.0, 8760.5, 201623.0]))
-    dt = draw(st.sampled_from([1.0, 24.0, 744.0, 0.5, 3.0]))
+    # tau: float64 hours since 1985 - whole hours, halves, and block
+    # boundaries of 20-/10-/1-minute series (k/3, k/6, k/60 h, not
+    # representable in binary) at realistic magnitudes, or any double
+    tau = draw(st.sampled_from([0.0, 175320.0, 140256.0, 8760.5, 201623.0,
+                                100000.0, 262968.0, 299999.0]))
+    frac = draw(st.sampled_from(['none', 'none', '/3', '/6', '/60', 'any']))
+    if frac in ('/3', '/6', '/60'):
+        den = float(frac[1:])
+        tau = tau + draw(st.integers(1, int(den) * 24 - 1)) / den
+    elif frac == 'any':
+        tau = draw(st.floats(min_value=1e5, max_value=3e5, allow_nan=False))
+    dt = draw(st.sampled_from([1.0, 24.0, 744.0, 0.5, 3.0, 1.0 / 3.0,
+                               1.0 / 6.0, 1.0 / 60.0, 0.1]))
     inst = draw(st.sampled_from([False, False, False, True]))
     times = []
     for t in range(nt):
@@ -507,6 +520,13 @@ def check_case(spec):
         r.label('two-blocks-one-tracer')
     if any(t0 == t1 for t0, t1 in spec['times']):
         r.label('instantaneous')
+    allt = [t for tt in spec['times'] for t in tt]
+    if any(float(np.float32(t)) != t for t in allt):
+        r.label('tau-not-float32')
+    if any(t != int(t) for t in allt):
+        r.label('tau-fractional')
+    if any(t >= 1e5 for t in allt):
+        r.label('tau>=1e5')
     r.nontrivial = bool((nt >= 2 and len(nls) > 1) or nested or scaled_any)
 
     base = libstate.scratch_path('_c18')
@@ -543,6 +563,7 @@ def check_case(spec):
         if ok1:
             check_tracer_vars(r, f1, exp, 'bpch1-scaled', True,
                               'bpch1', False)
+            check_tau(r, f1, spec, 'bpch1-scaled')
             for e in exp:
                 got, v = guard(r, 'bpch1-scaled-getvar',
                                lambda: f1.variables[e['key']])
@@ -565,6 +586,7 @@ def check_case(spec):
         if okg:
             good = check_tracer_vars(r, g0, exp, 'bpch2-noscale', False,
                                      'bpch2(noscale)', False)
+            check_tau(r, g0, spec, 'bpch2-noscale', with_time=True)
             if good:
                 dout = os.path.join(base, 'out2')
                 os.makedirs(dout)
@@ -585,6 +607,7 @@ def check_case(spec):
         if okg1:
             check_tracer_vars(r, g1, exp, 'bpch2-scaled', True, 'bpch2',
                               False)
+            check_tau(r, g1, spec, 'bpch2-scaled', with_time=True)
         # ---------------- (d) write the scaled file, read it back
         if ok1 and ok1_clean(r):
             dout = os.path.join(base, 'out1')
@@ -642,16 +665,27 @@ def ok1_clean(r):
     return not [f for f in r.failures if not f.clause.startswith('bpch2-')]
 
 
+def check_tau(r, f, spec, clause, with_time=False):
+    """tau0/tau1 of every time block, exactly (float64 bit patterns)"""
+    keys = ['tau0', 'tau1'] + (['time'] if with_time else [])
+    ok, got = guard(r, clause + '-tau', lambda: [
+        np.asarray(f.variables[k][...]) for k in keys])
+    if not ok:
+        return
+    want = [np.array([t[0] for t in spec['times']], dtype='f8'),
+            np.array([t[1] for t in spec['times']], dtype='f8')]
+    if with_time:
+        want.append(want[0])
+    for k, g, w in zip(keys, got, want):
+        g8 = np.asarray(g, dtype='f8')
+        if g8.shape != w.shape or g8.tobytes() != w.tobytes():
+            r.fail(clause + '-tau', '%s = %r (dtype %s), the block headers '
+                   'hold %r' % (k, [repr(float(x)) for x in g8.ravel()],
+                                g.dtype, [repr(float(x)) for x in w]))
+
+
 def check_meta(r, f, spec, exp, clause):
-    ok, t0 = guard(r, clause + '-tau', lambda: (
-        np.asarray(f.variables['tau0'][...]),
-        np.asarray(f.variables['tau1'][...])))
-    if ok:
-        w0 = np.array([t[0] for t in spec['times']])
-        w1 = np.array([t[1] for t in spec['times']])
-        if not (np.array_equal(t0[0], w0) and np.array_equal(t0[1], w1)):
-            r.fail(clause + '-tau', 'tau0/tau1 %r %r, expected %r %r' %
-                   (t0[0].tolist(), t0[1].tolist(), w0.tolist(), w1.tolist()))
+    check_tau(r, f, spec, clause)
     for e in exp:
         got, v = guard(r, clause + '-getvar', lambda: f.variables[e['key']])
         if not got:
